@@ -64,7 +64,8 @@ XPathProcessorImpl::XPathProcessorImpl(MemoryManager&   theManager) :
     m_positionPredicateStack(theManager),
     m_namespaces(theManager),
     m_allowVariableReferences(true),
-    m_allowKeyFunction(true)
+    m_allowKeyFunction(true),
+    m_nestingDepth(0)
 {
 }
 
@@ -104,6 +105,8 @@ XPathProcessorImpl::initXPath(
             bool                        allowKeyFunction)
 {
     m_isMatchPattern = false;
+
+    m_nestingDepth = 0;
 
     m_requireLiterals = false;
 
@@ -158,6 +161,8 @@ XPathProcessorImpl::initMatchPattern(
             bool                        allowKeyFunction)
 {
     m_isMatchPattern = true;
+
+    m_nestingDepth = 0;
 
     m_allowVariableReferences = allowVariableReferences;
 
@@ -933,7 +938,17 @@ XPathProcessorImpl::error(
 void
 XPathProcessorImpl::Expr()
 {
+    // The parser is recursive: a limit on the nesting of parentheses,
+    // predicates and function arguments keeps an expression from
+    // exhausting the stack.
+    if (++m_nestingDepth > eMaximumNestingDepth)
+    {
+        error(XalanMessages::ExpressionNestedTooDeeply);
+    }
+
     OrExpr();
+
+    --m_nestingDepth;
 }
 
 
@@ -1339,8 +1354,15 @@ XPathProcessorImpl::UnaryExpr()
 
     if(isNeg == true)
     {
+        if (++m_nestingDepth > eMaximumNestingDepth)
+        {
+            error(XalanMessages::ExpressionNestedTooDeeply);
+        }
+
         // UnaryExpr ::= UnionExpr | '-' UnaryExpr
         UnaryExpr();
+
+        --m_nestingDepth;
     }
     else
     {
